@@ -244,24 +244,43 @@ def het_link(kind, h):
 
 # ----------------------------------------------------------------------------- densities that have a past
 def feature_with_past(fails, p, past):
-    """Build an LRBF / LSEM conditional; if `past` is given ({"Sigma0": noise covariance the object is first built with})
-    the object is built with Sigma0 through the same constructor route, queried (log-conditional integrals and moment
-    matching against a probe density, which fills whatever the object memoises), and then brought to the target noise
-    covariance with update_Sigma.  Returns the object (judged afterwards exactly like a freshly built one) or None."""
+    """Build an LRBF / LSEM conditional; if `past` is given the object is first built with other parameters through the same
+    constructor route ({"Sigma0": another noise covariance} and / or {"kernels0": other centres and length scales / other
+    weights}), queried (log-conditional integrals and moment matching against a probe density, which fills whatever the object
+    memoises), and then brought to the target parameters through the mutation API: the kernel parameters are reassigned and
+    update_phi() is called, the noise covariance goes through update_Sigma.  Returns the object (judged afterwards exactly like a
+    freshly built one) or None."""
     from .compare import lib
 
     if not past:
         ok, c = lib(fails, "construct_feature", make_feature, p)
         return c if ok else None
-    p0 = dict(p, Sigma=past["Sigma0"])
+    p0 = dict(p)
+    if past.get("Sigma0") is not None:
+        p0["Sigma"] = past["Sigma0"]
+    if past.get("kernels0"):
+        p0.update(past["kernels0"])
     ok, c = lib(fails, "construct_feature", make_feature, p0)
     if not ok:
         return None
     Dx, Dy = int(p["Dx"]), int(p["Dy"])
     probe = pdf.GaussianPDF(Sigma=J(0.3 * np.eye(Dx)[None]), mu=J(0.2 * np.ones((1, Dx))))
+    probe_q = pdf.GaussianPDF(Sigma=J(0.4 * np.eye(Dx + Dy)[None]), mu=J(0.1 * np.ones((1, Dx + Dy))))
     lib(fails, "past.integrate_log_conditional_y", lambda: c.integrate_log_conditional_y(probe, y=J(np.zeros((1, Dy)))))
+    lib(fails, "past.integrate_log_conditional", lambda: c.integrate_log_conditional(probe_q))
     lib(fails, "past.affine_joint_transformation", lambda: c.affine_joint_transformation(probe))
-    ok, _ = lib(fails, "past.update_Sigma", lambda: c.update_Sigma(J(p["Sigma"])))
+    ok = True
+    if past.get("kernels0"):
+        def reparametrise():
+            if p["kind"] == "lrbf":
+                c.mu, c.length_scale = J(p["mu"]), J(p["length_scale"])
+            else:
+                W = J(p["W"])
+                c.w0, c.W = W[:, 0], W[:, 1:]
+            c.update_phi()
+        ok, _ = lib(fails, "past.update_phi", reparametrise)
+    if ok and past.get("Sigma0") is not None:
+        ok, _ = lib(fails, "past.update_Sigma", lambda: c.update_Sigma(J(p["Sigma"])))
     return c if ok else None
 
 
